@@ -560,7 +560,8 @@ fn gen_script(rng: &mut Rng, sc: &Sc) -> Vec<ReadStep> {
             1 => script.len(),
             _ => rng.urange(0, script.len()),
         };
-        script.insert(at, ReadStep::Fail(*rng.pick(&ErrKind::ALL)));
+        let k = *rng.pick(&ErrKind::ALL);
+        script.insert(at, if rng.chance(1, 3) { ReadStep::FailForever(k) } else { ReadStep::Fail(k) });
     } else if rng.chance(1, 8) {
         let at = rng.urange(0, script.len());
         script.insert(at, ReadStep::Eof);
@@ -951,7 +952,7 @@ impl Property for C16 {
             line_script.push(ReadStep::Give(rend.bytes.len() - last));
         }
         for k in 0..=line_script.len() {
-            for st in [ReadStep::Fail(ErrKind::Other), ReadStep::Eof] {
+            for st in [ReadStep::Fail(ErrKind::Other), ReadStep::FailForever(ErrKind::Other), ReadStep::Eof] {
                 let mut s = line_script.clone();
                 s.insert(k, st);
                 out.push(Sc {
